@@ -70,6 +70,13 @@ func c09Servers() []c09server {
 			}
 			return "", nil, false
 		}},
+		{"escaped-base", gen.Arr(gen.S{"url": "https://h.t/my%20api"}), func(scheme, host, path string) (string, map[string]string, bool) {
+			if scheme != "https" || host != "h.t" {
+				return "", nil, false
+			}
+			r, ok := c09MatchBase("/my%20api")(path)
+			return r, map[string]string{}, ok
+		}},
 		{"same-host-two-schemes", gen.Arr(gen.S{"url": "https://h.t/base"}, gen.S{"url": "http://h.t/base"}), func(scheme, host, path string) (string, map[string]string, bool) {
 			if (scheme == "https" || scheme == "http") && host == "h.t" {
 				if r, ok := c09MatchBase("/base")(path); ok {
@@ -115,6 +122,13 @@ func refMatch(template, path string) (map[string]string, bool) {
 				return nil, false
 			}
 			vars[t[1:len(t)-1]] = ps[i]
+		} else if a, b := strings.Index(t, "{"), strings.Index(t, "}"); a >= 0 && b > a {
+			// a variable inside a segment: literal prefix and suffix around a non-empty value
+			pre, suf := t[:a], t[b+1:]
+			if len(ps[i]) <= len(pre)+len(suf) || !strings.HasPrefix(ps[i], pre) || !strings.HasSuffix(ps[i], suf) {
+				return nil, false
+			}
+			vars[t[a+1:b]] = ps[i][len(pre) : len(ps[i])-len(suf)]
 		} else if t != ps[i] {
 			return nil, false
 		}
@@ -159,8 +173,8 @@ func c09Paths() []string {
 func c09Shape(t string) string {
 	ss := strings.Split(t, "/")
 	for i, s := range ss {
-		if strings.HasPrefix(s, "{") {
-			ss[i] = "{}"
+		if a, b := strings.Index(s, "{"), strings.Index(s, "}"); a >= 0 && b > a {
+			ss[i] = s[:a] + "{}" + s[b+1:]
 		}
 	}
 	return strings.Join(ss, "/")
@@ -178,7 +192,7 @@ type c09Witness struct {
 func init() {
 	core.Register(&core.Check{
 		ID:   "C09",
-		Rule: "template sets: all single templates, all pairs and (quick: every 40th, thorough: every) triple of the 84 paths with <=3 segments over {a, b, {x}, {y}} (no repeated variable, no two templates of identical shape), methods GET on every path and POST on every other one; servers: none, relative /v1, absolute https://h.t/base, two servers, two servers differing in scheme only, variables in host and base path; requests: every template filled with values from {a, b, 7} under every server spelling, methods GET/POST/DELETE/HEAD (DELETE and HEAD are declared nowhere), plus near misses (trailing slash, extra segment, missing segment, root, wrong scheme, wrong host, missing base path); both routers. Soundness (returned operation is the declared one, substitution reproduces the path), completeness, literal-wins and not-found are judged by an independent segment matcher. Distinct = (router, template set, server, request); non-trivial = the set has a variable or two templates sharing a first segment.",
+		Rule: "template sets: all single templates, all pairs and (quick: every 40th, thorough: every) triple of the 84 paths with <=3 segments over {a, b, {x}, {y}} (no repeated variable, no two templates of identical shape), plus all singles, pairs and triples of 8 templates whose variable shares its segment with literal text (/v{x}/a, /b/img-{y}, /b/{y}.json ...) next to literal siblings, methods GET on every path and POST on every other one; servers: none, relative /v1, absolute https://h.t/base, two servers, two servers differing in scheme only, a base path with a percent-escape, variables in host and base path; requests: every template filled with values from {a, b, 7} under every server spelling, methods GET/POST/DELETE/HEAD (DELETE and HEAD are declared nowhere), plus near misses (trailing slash, extra segment, missing segment, root, wrong scheme, wrong host, missing base path); both routers. Soundness (returned operation is the declared one, substitution reproduces the path), completeness, literal-wins and not-found are judged by an independent segment matcher. Distinct = (router, template set, server, request); non-trivial = the set has a variable or two templates sharing a first segment.",
 		Assumptions: []string{
 			"a variable matches exactly one non-empty slash-free segment; a fully literal template wins over a templated one; when several templated ones match, any of them is a correct answer provided it declares the method",
 		},
@@ -205,6 +219,17 @@ func runC09(c *core.Ctx) {
 				c09Set(c, set, servers[si])
 			}
 			idx++
+		}
+	}
+	// templates whose variable does not fill its segment, next to literal siblings
+	partial := []string{"/v{x}/a", "/v7/a", "/b/img-{y}", "/b/img-7", "/b/{y}.json", "/b/a.json", "/a/{x}", "/a/v{x}"}
+	for i := range partial {
+		try([]string{partial[i]})
+		for j := i + 1; j < len(partial); j++ {
+			try([]string{partial[i], partial[j]})
+			for k := j + 1; k < len(partial); k++ {
+				try([]string{partial[i], partial[j], partial[k]})
+			}
 		}
 	}
 	for i := range paths {
@@ -235,8 +260,8 @@ func c09Set(c *core.Ctx, set []string, srv c09server) {
 	for i, p := range set {
 		var params []any
 		for _, seg := range strings.Split(p, "/") {
-			if strings.HasPrefix(seg, "{") {
-				params = append(params, gen.S{"name": seg[1 : len(seg)-1], "in": "path", "required": true, "schema": gen.S{"type": "string"}})
+			if a, b := strings.Index(seg, "{"), strings.Index(seg, "}"); a >= 0 && b > a {
+				params = append(params, gen.S{"name": seg[a+1 : b], "in": "path", "required": true, "schema": gen.S{"type": "string"}})
 			}
 		}
 		op := func(id string) gen.S {
@@ -307,6 +332,8 @@ func c09Set(c *core.Ctx, set []string, srv c09server) {
 		prefixes = []urlT{{"https", "h.t", "/base"}, {"http", "h.t", "/base"}, {"https", "other.t", "/base"}, {"https", "h.t", ""}}
 	case "two-servers":
 		prefixes = []urlT{{"https", "h.t", "/base"}, {"http", "alt.t", ""}, {"https", "alt.t", ""}, {"http", "h.t", "/base"}}
+	case "escaped-base":
+		prefixes = []urlT{{"https", "h.t", "/my%20api"}, {"https", "h.t", "/my"}, {"https", "h.t", ""}}
 	case "same-host-two-schemes":
 		prefixes = []urlT{{"https", "h.t", "/base"}, {"http", "h.t", "/base"}, {"http", "other.t", "/base"}}
 	case "path-level":
@@ -321,8 +348,8 @@ func c09Set(c *core.Ctx, set []string, srv c09server) {
 			segs := strings.Split(t, "/")
 			k := 0
 			for i, s := range segs {
-				if strings.HasPrefix(s, "{") {
-					segs[i] = fill[k%len(fill)]
+				if a, b := strings.Index(s, "{"), strings.Index(s, "}"); a >= 0 && b > a {
+					segs[i] = s[:a] + fill[k%len(fill)] + s[b+1:]
 					k++
 				}
 			}
@@ -466,6 +493,22 @@ func c09Set(c *core.Ctx, set []string, srv c09server) {
 							w.Got, w.Want = ferr.Error(), "route to one of "+strings.Join(allowed, " ")
 							f := feat("not_routed")
 							f["ambiguous"] = fmt.Sprint(len(matching) > 1)
+							// every template that should have answered has text after a variable inside a segment ("{y}.json")
+							textAfterVar := true
+							for _, t := range allowed {
+								found := false
+								for _, seg := range strings.Split(t, "/") {
+									if b := strings.Index(seg, "}"); b >= 0 && b < len(seg)-1 {
+										found = true
+									}
+								}
+								if !found {
+									textAfterVar = false
+								}
+							}
+							if textAfterVar {
+								f["text_after_variable_in_segment"] = "true"
+							}
 							c.Violate(f, w, desc+"\nreference: templates "+strings.Join(allowed, " ")+" match and declare "+method)
 						}
 						continue
